@@ -179,6 +179,25 @@ def len_of_window(e):
     return None
 
 
+def _scaled_short(fact):
+    """`len(W) / c < k` (or `k > len(W) / c`) with constants c, k >= 1: (W, k * c) - the window holds fewer than k*c"""
+    rel = fact[0]
+    if rel == "Lt":
+        x, y = fact[1], fact[2]
+    elif rel == "Gt":
+        x, y = fact[2], fact[1]
+    else:
+        return None
+    px = peel(x, through_try=False)
+    k = _const_int(y)
+    if px.k == "bin" and px.op == "Div" and k is not None and k >= 1:
+        w = len_of_window(px.a)
+        c = _const_int(px.b)
+        if w and c is not None and c >= 1:
+            return w, k * c
+    return None
+
+
 def short_window_fact(fact):
     """If the fact says 'window W is short' with the operand directly len(W): return W."""
     rel = fact[0]
@@ -204,6 +223,10 @@ def short_window_fact(fact):
             mt = masked_len_threshold(x)
             if mt and _is_zero(y):
                 return mt[0]
+    if rel in ("Lt", "Gt"):
+        sd = _scaled_short(fact)
+        if sd:
+            return sd[0]
     if rel in ("Eq", "Lt", "Le"):
         w = len_of_window(fact[1])
         if w and (rel != "Eq" or _is_zero(fact[2])) and not len_of_window(fact[2]):
@@ -485,6 +508,9 @@ def short_window_threshold(fact):
             zero = (y == 0) if rel == "IntEq" else _is_zero(y)
             if mt and zero and mt[1] > 1:
                 return mt[0], E("const", v=mt[1], ty="usize"), True
+    sd = _scaled_short(fact)
+    if sd:
+        return sd[0], E("const", v=sd[1], ty="usize"), True
     if rel in ("Lt", "Le"):
         w = len_of_window(fact[1])
         if w and not len_of_window(fact[2]):
@@ -507,6 +533,8 @@ def rule_r4(facts, col, bodies=None):
             if tgt is None or fact is None:
                 continue
             need = peel(e.args[1], through_try=False)
+            if need.k != "const" and _const_int(need) is not None:
+                need = E("const", v=_const_int(need), ty="usize")      # `size_of::<i16>()` is the constant 2
             key = "%s:need(%s)@%s" % (body.q, tgt, _guard_desc(body, bb))
             w = short_window_fact(fact)
             if w is None:
